@@ -37,3 +37,18 @@ def from_docs(repo):
             flag = m.group(1)
             out.setdefault(flag, (by_spelling(flag)[0], m.group(2) == 'enables'))
     return out, notes
+
+
+def defaults_from_docs(repo):
+    """{option: documented default} read from the transform pages ("... enabled by default" / "... disabled by default")."""
+    out = {}
+    for path in sorted(glob.glob(os.path.join(repo, 'docs', 'source', 'transforms', '*.rst'))):
+        opt = os.path.basename(path)[:-4]
+        if opt == 'index':
+            continue
+        text = re.sub(r'\s+', ' ', open(path, encoding='utf-8').read())
+        if re.search(r'\b(is|and) enabled by default', text):
+            out[opt] = True
+        elif re.search(r'\bdisabled by\s+default', text) or re.search(r'is disabled by default', text):
+            out[opt] = False
+    return out
